@@ -3,7 +3,7 @@ package main
 import (
 	"fmt"
 	"go/token"
-	"go/types"
+
 )
 
 type intrinsicFn func(e *Engine, st *State, th *Thread, args []Value, pos token.Pos) Value
@@ -117,6 +117,7 @@ func init() {
 	intrinsics[vrtPkg+".Quiesce"] = func(e *Engine, st *State, th *Thread, args []Value, pos token.Pos) Value {
 		e.schedPoint(st, th, "quiesce", pos)
 		th.granted = false
+		e.syncAll(st, th)
 		return nil
 	}
 	visibleCalls[vrtPkg+".Quiesce"] = func(e *Engine, st *State, th *Thread, args []Value) bool {
@@ -130,6 +131,7 @@ func init() {
 	intrinsics[vrtPkg+".Yield"] = func(e *Engine, st *State, th *Thread, args []Value, pos token.Pos) Value {
 		e.schedPoint(st, th, "yield", pos)
 		th.granted = false
+		e.syncAll(st, th)
 		return nil
 	}
 	visibleCalls[vrtPkg+".Yield"] = nil
@@ -137,6 +139,7 @@ func init() {
 	intrinsics[vrtPkg+".WaitFor"] = func(e *Engine, st *State, th *Thread, args []Value, pos token.Pos) Value {
 		e.schedPoint(st, th, "waitfor", pos)
 		th.granted = false
+		e.syncAll(st, th)
 		return nil
 	}
 	visibleCalls[vrtPkg+".WaitFor"] = func(e *Engine, st *State, th *Thread, args []Value) bool {
@@ -194,6 +197,7 @@ func init() {
 			panic(engErr("Lock granted on held mutex"))
 		}
 		mutexSet(e, st, p, true, th.id)
+		e.acquire(st, th, "mu:"+p.key())
 		return nil
 	}
 	visibleCalls["(*sync.Mutex).Lock"] = func(e *Engine, st *State, th *Thread, args []Value) bool {
@@ -205,6 +209,7 @@ func init() {
 		p := args[0].(Ptr)
 		if mutexFree(e, st, p) {
 			mutexSet(e, st, p, true, th.id)
+			e.acquire(st, th, "mu:"+p.key())
 			return e.ts.True
 		}
 		return e.ts.False
@@ -215,6 +220,7 @@ func init() {
 		if mutexFree(e, st, p) {
 			panic(goPanic{"sync: unlock of unlocked mutex"})
 		}
+		e.release(st, th, "mu:"+p.key())
 		mutexSet(e, st, p, false, 0)
 		return nil
 	}
@@ -226,6 +232,7 @@ func init() {
 			if mutexFree(e, st, lp) {
 				panic(goPanic{"sync: Cond.Wait with unlocked mutex"})
 			}
+			e.release(st, th, "mu:"+lp.key())
 			mutexSet(e, st, lp, false, 0)
 			th.condPhase = 1
 			th.waitCond = p.key()
@@ -237,6 +244,8 @@ func init() {
 		e.schedPoint(st, th, "Cond.Wake", pos)
 		th.granted = false
 		mutexSet(e, st, lp, true, th.id)
+		e.acquire(st, th, "mu:"+lp.key())
+		e.acquire(st, th, "cond:"+p.key())
 		th.condPhase = 0
 		th.waitCond = ""
 		th.signaled = false
@@ -250,6 +259,7 @@ func init() {
 	}
 	wakeAll := func(e *Engine, st *State, th *Thread, args []Value, pos token.Pos) Value {
 		key := args[0].(Ptr).key()
+		e.release(st, th, "cond:"+key)
 		for _, u := range st.threads {
 			if u.condPhase == 1 && u.waitCond == key {
 				u.signaled = true
@@ -281,6 +291,7 @@ func init() {
 			panic(goPanic{"sync: negative WaitGroup counter"})
 		}
 		wgSet(e, st, p, n)
+		e.release(st, th, "wg:"+p.key())
 		return nil
 	}
 	intrinsics["(*sync.WaitGroup).Done"] = func(e *Engine, st *State, th *Thread, args []Value, pos token.Pos) Value {
@@ -290,11 +301,13 @@ func init() {
 			panic(goPanic{"sync: negative WaitGroup counter"})
 		}
 		wgSet(e, st, p, n)
+		e.release(st, th, "wg:"+p.key())
 		return nil
 	}
 	intrinsics["(*sync.WaitGroup).Wait"] = func(e *Engine, st *State, th *Thread, args []Value, pos token.Pos) Value {
 		e.schedPoint(st, th, "WaitGroup.Wait", pos)
 		th.granted = false
+		e.acquire(st, th, "wg:"+args[0].(Ptr).key())
 		return nil
 	}
 	visibleCalls["(*sync.WaitGroup).Wait"] = func(e *Engine, st *State, th *Thread, args []Value) bool {
@@ -344,22 +357,6 @@ func init() {
 		return r
 	}
 	intrinsics["math/bits.Len"] = intrinsics["math/bits.Len64"]
-	intrinsics["storj.io/drpc/drpcerr.shallowEqual"] = func(e *Engine, st *State, th *Thread, args []Value, pos token.Pos) Value {
-		a, b := args[0].(IfaceV), args[1].(IfaceV)
-		if a.t == nil || b.t == nil {
-			return e.ts.Bool(a.t == nil && b.t == nil)
-		}
-		if !types.Identical(a.t, b.t) {
-			return e.ts.False
-		}
-		// interface word equality: identical pointers, or identical small scalars
-		switch x := a.v.(type) {
-		case Ptr:
-			y := b.v.(Ptr)
-			return e.ts.Bool(x.obj == y.obj && pathEq(x.path, y.path))
-		}
-		return e.ts.False // "may return false even if equal"
-	}
 	intrinsics["time.Sleep"] = func(e *Engine, st *State, th *Thread, args []Value, pos token.Pos) Value {
 		e.schedPoint(st, th, "sleep", pos)
 		th.granted = false
@@ -440,6 +437,7 @@ func wgSet(e *Engine, st *State, p Ptr, n int) {
 func atomicLoad(e *Engine, st *State, th *Thread, args []Value, pos token.Pos) Value {
 	e.schedPoint(st, th, "atomic.Load", pos)
 	th.granted = false
+	e.acquire(st, th, "at:"+args[0].(Ptr).key())
 	return st.load(args[0].(Ptr))
 }
 
@@ -448,6 +446,7 @@ func atomicStore(e *Engine, st *State, th *Thread, args []Value, pos token.Pos) 
 		e.schedPoint(st, th, "atomic.Store", pos)
 		th.granted = false
 	}
+	e.release(st, th, "at:"+args[0].(Ptr).key())
 	st.store(args[0].(Ptr), args[1])
 	return nil
 }
@@ -456,6 +455,7 @@ func atomicAdd(e *Engine, st *State, th *Thread, args []Value, pos token.Pos) Va
 	e.schedPoint(st, th, "atomic.Add", pos)
 	th.granted = false
 	p := args[0].(Ptr)
+	e.syncOn(st, th, "at:"+p.key())
 	n := e.ts.Bin(OpAdd, st.load(p).(*Term), args[1].(*Term))
 	st.store(p, n)
 	return n
@@ -465,6 +465,7 @@ func atomicSwap(e *Engine, st *State, th *Thread, args []Value, pos token.Pos) V
 	e.schedPoint(st, th, "atomic.Swap", pos)
 	th.granted = false
 	p := args[0].(Ptr)
+	e.syncOn(st, th, "at:"+p.key())
 	old := st.load(p)
 	st.store(p, args[1])
 	return old
@@ -477,6 +478,7 @@ func atomicCAS(e *Engine, st *State, th *Thread, args []Value, pos token.Pos) Va
 	eq := e.valEq(st, old, args[1])
 	ok := e.decide(st, eq)
 	th.granted = false
+	e.syncOn(st, th, "at:"+p.key())
 	if ok {
 		st.store(p, args[2])
 	}
